@@ -41,6 +41,10 @@ type Case struct {
 	// one package (ewkb when an SRID is present, wkb when absent); all ten destinations, the one-shot,
 	// streaming and SRID-prefix paths and every encode route of that package stay.
 	Lite bool `json:"lite,omitempty"`
+	// Noise != 0 interleaves calls to other entry points (other kinds, byte orders, SRIDs, Must* and hex
+	// helpers, failing decodes, and same-shape variants of this very geometry) between the checked calls;
+	// the value selects where the rotation of noise calls starts. Their results are not checked.
+	Noise int `json:"noise,omitempty"`
 }
 
 // ---------------------------------------------------------------- expectation model
@@ -112,11 +116,126 @@ func expectScan(dest string, val orb.Geometry) (orb.Geometry, bool) {
 			return v, true
 		}
 	case "Bound":
-		// "anything to its bound": the statement defines the expected value as the
-		// bound of the decoded value; orb's Bound() is not the code under test here (C06).
-		return val.Bound(), true
+		// "anything to its bound": the harness's own fold over the vertices (see modelBound);
+		// no orb function is used to build the expectation.
+		// the value is judged by expectation.match / matchBound(got, modelBound(val)), never by bit comparison
+		return nil, true
 	}
 	return nil, false
+}
+
+// expBound is the expected result of the "anything to its bound" coercion, computed by the harness.
+//
+//	exact        componentwise min / max over the contributing vertices, compared NUMERICALLY (==), so
+//	             that -0 and +0 are the same bound (which zero survives depends on vertex order in orb
+//	             and is not specified)
+//	empty        no contributing vertex at all: any bound with Min > Max on some axis is accepted (orb
+//	             uses the sentinel {1,1},{-1,-1}; the sentinel's value is not part of the statement)
+//	unspecified  a contributing coordinate is NaN: orb's min/max fold skips or keeps NaN depending on
+//	             vertex order (Extend tests Contains first), nothing is documented; only the kind of the
+//	             result (an orb.Bound) is checked
+//
+// Contributing vertices (what the unchanged tree documents and does): every vertex of points,
+// multi-points, line strings and multi-line strings; of a polygon only the OUTER ring (ring 0: "the bound
+// around the polygon", holes lie inside a valid polygon); of a multi-polygon the outer ring of every
+// polygon; of a collection the contributing vertices of every member at any depth.
+type expBound struct {
+	unspecified, empty bool
+	min, max           [2]float64
+}
+
+func (e expBound) String() string {
+	switch {
+	case e.unspecified:
+		return "unspecified (NaN vertex)"
+	case e.empty:
+		return "any empty bound"
+	}
+	return fmt.Sprintf("[%v %v]-[%v %v]", e.min[0], e.min[1], e.max[0], e.max[1])
+}
+
+func modelBound(val orb.Geometry) expBound {
+	e := expBound{empty: true}
+	add := func(p orb.Point) {
+		if math.IsNaN(p[0]) || math.IsNaN(p[1]) {
+			e.unspecified = true
+			return
+		}
+		if e.empty {
+			e.empty = false
+			e.min, e.max = [2]float64{p[0], p[1]}, [2]float64{p[0], p[1]}
+			return
+		}
+		for k := 0; k < 2; k++ {
+			if p[k] < e.min[k] {
+				e.min[k] = p[k]
+			}
+			if p[k] > e.max[k] {
+				e.max[k] = p[k]
+			}
+		}
+	}
+	var walk func(g orb.Geometry)
+	walk = func(g orb.Geometry) {
+		switch v := g.(type) {
+		case orb.Point:
+			add(v)
+		case orb.MultiPoint:
+			for _, p := range v {
+				add(p)
+			}
+		case orb.LineString:
+			for _, p := range v {
+				add(p)
+			}
+		case orb.Ring:
+			for _, p := range v {
+				add(p)
+			}
+		case orb.MultiLineString:
+			for _, l := range v {
+				walk(l)
+			}
+		case orb.Polygon:
+			if len(v) > 0 {
+				walk(v[0])
+			}
+		case orb.MultiPolygon:
+			for _, p := range v {
+				walk(p)
+			}
+		case orb.Collection:
+			for _, m := range v {
+				walk(m)
+			}
+		case orb.Bound:
+			add(v.Min)
+			add(v.Max)
+		}
+	}
+	walk(val)
+	return e
+}
+
+// matchBound compares a scanned bound with the model.
+func matchBound(got orb.Geometry, e expBound) (bool, string) {
+	b, ok := got.(orb.Bound)
+	if !ok {
+		return false, fmt.Sprintf("got %s, want an orb.Bound", gen.KindOf(got))
+	}
+	switch {
+	case e.unspecified:
+		return true, ""
+	case e.empty:
+		if b.Min[0] > b.Max[0] || b.Min[1] > b.Max[1] {
+			return true, ""
+		}
+		return false, fmt.Sprintf("bound of a value without vertices is [%v %v]-[%v %v], want an empty bound (Min > Max)", b.Min[0], b.Min[1], b.Max[0], b.Max[1])
+	}
+	if b.Min[0] == e.min[0] && b.Min[1] == e.min[1] && b.Max[0] == e.max[0] && b.Max[1] == e.max[1] {
+		return true, ""
+	}
+	return false, fmt.Sprintf("bound [%v %v]-[%v %v], want the min/max over all vertices %s", b.Min[0], b.Min[1], b.Max[0], b.Max[1], e)
 }
 
 func ptsEq(a, b []orb.Point) bool {
@@ -260,6 +379,14 @@ type api struct {
 	decoder      func(io.Reader) func() (orb.Geometry, int, error)
 	scan         func(dest interface{}, data []byte) scanResult
 	scanPrefix   func(dest interface{}, data []byte) scanResult // 4-byte SRID prefix path
+	noise        func()                                         // class D: unrelated calls between the checked ones (nil = none)
+}
+
+// nz runs one noise call if the case asks for them.
+func (a api) nz() {
+	if a.noise != nil {
+		a.noise()
+	}
 }
 
 var wkbAPI = api{
@@ -339,6 +466,7 @@ func encodeAll(a api, g orb.Geometry, srid int, be bool) ([]encoded, error) {
 			return fmt.Errorf("%s.%s: %v", a.name, route, err)
 		}
 		out = append(out, encoded{route, b})
+		a.nz()
 		return nil
 	}
 	addHex := func(route string, s string, err error) error {
@@ -479,8 +607,18 @@ func mysqlRetryApplies(srid int) bool {
 }
 
 type expectation struct {
-	geom orb.Geometry
-	ok   bool
+	geom    orb.Geometry
+	ok      bool
+	isBound bool     // the Bound destination: judged by the model, not by bits
+	bound   expBound // harness model of the bound of the decoded value
+}
+
+// match compares a scanned value with the expectation.
+func (e expectation) match(got orb.Geometry) (bool, string) {
+	if e.isBound {
+		return matchBound(got, e.bound)
+	}
+	return sameBits(got, e.geom)
 }
 
 // expectAll applies the expectation table to the decoded value for all ten destinations.
@@ -488,6 +626,9 @@ func expectAll(want orb.Geometry) []expectation {
 	out := make([]expectation, len(destKinds))
 	for i, dk := range destKinds {
 		out[i].geom, out[i].ok = expectScan(dk, want)
+		if dk == "Bound" {
+			out[i].isBound, out[i].bound = true, modelBound(want)
+		}
 	}
 	return out
 }
@@ -502,8 +643,9 @@ func checkScan(a api, scan func(interface{}, []byte) scanResult, what string, fr
 		}
 		dest, read := newDest(dk)
 		copy(buf, framed)
+		a.nz()
 		res := scan(dest, buf[:len(framed):len(framed)])
-		exp, ok := exps[i].geom, exps[i].ok
+		ok := exps[i].ok
 		where := func() string { return fmt.Sprintf("%s scan [%s] into %s", a.name, what, dk) }
 		if !ok {
 			if res.err == nil {
@@ -523,11 +665,11 @@ func checkScan(a api, scan func(interface{}, []byte) scanResult, what string, fr
 		if !res.valid {
 			return fmt.Errorf("%s: Valid is false after a successful scan", where())
 		}
-		if same, why := sameBits(res.geom, exp); !same {
+		if same, why := exps[i].match(res.geom); !same {
 			return fmt.Errorf("%s: scanner.Geometry differs: %s", where(), why)
 		}
 		if read != nil {
-			if same, why := sameBits(read(), exp); !same {
+			if same, why := exps[i].match(read()); !same {
 				return fmt.Errorf("%s: *dest differs: %s", where(), why)
 			}
 		}
@@ -554,6 +696,7 @@ func checkBytes(a api, route string, data []byte, want orb.Geometry, exps []expe
 	if s != srid {
 		return fmt.Errorf("%s.Unmarshal of %s output: SRID %d, want %d", a.name, route, s, srid)
 	}
+	a.nz()
 	// streaming decoder: plain reader, one byte at a time, and two values back to back
 	for _, rd := range []struct {
 		name string
@@ -618,6 +761,7 @@ func checkCase(c Case) error {
 		if c.Lite && a.hasSRID != (c.SRID != 0) {
 			continue
 		}
+		a.noise = mkNoise(c)
 		srid := c.SRID
 		if !a.hasSRID {
 			srid = 0
@@ -817,7 +961,7 @@ func drawCase(t *rapid.T) Case {
 		o.Coord = gen.AnyCoord()
 	}
 	var g orb.Geometry
-	pow2 := false
+	pow2, boundClass := false, false
 	switch shape := rapid.IntRange(0, 39).Draw(t, "shape"); {
 	case shape == 39:
 		g = nil
@@ -832,6 +976,11 @@ func drawCase(t *rapid.T) Case {
 		cnt := &counter{k: uint64(rapid.Uint32().Draw(t, "coordbase"))}
 		g = place(rapid.IntRange(0, 2).Draw(t, "placement"), lengthShape(rapid.IntRange(0, len(lengthShapeNames)-1).Draw(t, "lenshape"), n, cnt), cnt)
 		pow2 = true
+	case shape >= 34:
+		// members with degenerate bounds (points, axis-parallel segments, slivers, single-vertex lines) mixed
+		// with ordinary and empty ones, small-integer coordinates: makes the bound coercion bite
+		g = drawBoundMembers(t)
+		boundClass = true
 	case shape >= 30:
 		// bias towards the multi-level kinds
 		o.Kinds = []string{"MultiLineString", "Polygon", "MultiPolygon", "MultiPoint"}
@@ -854,6 +1003,9 @@ func drawCase(t *rapid.T) Case {
 	c := Case{Geom: gen.G{V: g}}
 	if pow2 {
 		stats.Class("length class:a vertex list of 2^k-1..2^k+1 points, k=4..9")
+	}
+	if boundClass {
+		stats.Class("bound class:members with degenerate bounds in a multi-geometry / collection")
 	}
 	switch rapid.IntRange(0, 3).Draw(t, "sridclass") {
 	case 0:
@@ -1023,6 +1175,16 @@ func classify(test string, c Case) {
 			}
 		}
 	}
+	if g != nil && !isTypedNil(g) {
+		switch mb := modelBound(gen.Canonical(g)); {
+		case mb.unspecified:
+			stats.Class("bound expectation:unspecified (NaN vertex), kind only")
+		case mb.empty:
+			stats.Class("bound expectation:empty")
+		default:
+			stats.Class("bound expectation:exact min/max")
+		}
+	}
 	if nonTrivial(c) {
 		stats.NonTrivial(gen.JSON(c))
 		grp := gen.KindOf(g)
@@ -1036,14 +1198,14 @@ func assumptions() {
 	stats.Assume("collection members (at any depth) and multi-geometry members are not nil: a typed-nil slice only occurs as the top-level value (quantifier: members without nil entries); generated typed-nil collection members are replaced by empty non-nil values")
 	stats.Assume("a typed-nil top-level slice may encode to no bytes or to an empty geometry of its kind (both accepted)")
 	stats.Assume("wkb.Scanner's deprecated MySQL 'strip 4 bytes and retry' path (documented as best effort) is only exercised with SRID prefixes whose first byte is not 0/1 and that do not look like hex or \\x framing; ewkb.ScannerPrefixSRID, the supported path, is checked for every SRID")
-	stats.Assume("'anything to its bound' is checked against orb's own Bound() of the expected value (the statement defines the coercion in those terms; Bound itself belongs to C06)")
+	stats.Assume("'anything to its bound' is checked against the harness's own fold: componentwise min/max over all vertices at any depth, of polygons the outer ring only (as the unchanged tree documents and does), compared numerically so that -0 == +0; a value without contributing vertices must give some empty bound (Min > Max on an axis; the sentinel's value is not checked); when a contributing coordinate is NaN the bound is unspecified (orb's fold keeps or skips NaN depending on vertex order) and only the result kind is checked")
 	stats.Assume("byte order and SRID are passed per call; the package-level DefaultByteOrder/DefaultSRID variables are left at their defaults")
 	stats.Assume("scanning a NULL column (nil input) is not part of the statement and is not checked")
 }
 
 func TestPropRoundTrip(t *testing.T) {
 	assumptions()
-	stats.Check(t, 100000, 3000000, func(rt *rapid.T) {
+	stats.Check(t, 80000, 3000000, func(rt *rapid.T) {
 		c := drawCase(rt)
 		classify("TestPropRoundTrip", c)
 		stats.Try(rt, "TestPropRoundTrip", c, func() error { return checkCase(c) })
@@ -1534,6 +1696,28 @@ func TestReplay(t *testing.T) {
 	if test == "TestEnumWitnesses/direct" {
 		if err := stats.Guard(witnessRetryCollection); err != nil {
 			t.Fatalf("witness still fails: %v", err)
+		}
+		return
+	}
+	if test == "TestPropConcurrent" {
+		var cs []Case
+		if err := json.Unmarshal(raw, &cs); err != nil {
+			t.Fatal(err)
+		}
+		for k := 0; k < 20; k++ {
+			if err := stats.ParallelErr(len(cs), 100, func(i int) error { return checkCase(cs[i]) }); err != nil {
+				t.Fatalf("replayed concurrent group still fails: %v", err)
+			}
+		}
+		return
+	}
+	if test == "TestPropIndependence" || test == "TestEnumIndependence" {
+		var c Case
+		if err := json.Unmarshal(raw, &c); err != nil {
+			t.Fatal(err)
+		}
+		if err := stats.Guard(func() error { return checkIndependence(c) }); err != nil {
+			t.Fatalf("replayed case still fails: %v", err)
 		}
 		return
 	}
